@@ -347,12 +347,16 @@ class Policy(object):
             return 0.0
         if fbase == '1099-int':
             if base == 'box_1':
+                if p.get('huge_interest'):
+                    return money(d, 4000, 15000)
                 return self.amount(0, 4000 if p['big_interest'] else 700)
             if base == 'box_3':
                 return self.amount(0, 500)
             if base == 'box_4':
                 return self.amount(0, 200)
             if base == 'box_6':
+                if p.get('huge_interest'):
+                    return money(d, 20, 95)
                 return self.amount(0, 120) if p['foreign_tax'] else 0.0
             if base == 'box_8':
                 return self.amount(0, 1000)
